@@ -93,6 +93,16 @@ def gen_instance(rng, profile="mixed", nj=None, nm=None):
         d, feats = gen_multibuf(rng, out_start=True)
         feats["profile"] = "outstart"
         return d, feats
+    if profile == "fullstart":
+        # the output buffer is filled EXACTLY to its capacity by init_state (the compiler flags it NOT_EMPTY, not FULL):
+        # every delivery into it before something is taken out must be refused
+        d, feats = gen_multibuf(rng, out_start=True)
+        n_out = sum(1 for k_, v_ in d["init_state"].items() if k_.startswith("j-") and v_.get("location") == "b-2")
+        for b in d["instance_config"]["buffer"]:
+            if b["name"] == "b-2":
+                b["capacity"] = max(1, n_out)
+        feats["profile"] = "fullstart"
+        return d, feats
     if profile == "outs":
         # several outages on the SAME component with different durations and frequencies (they strike together and
         # apart), on machines and on AGVs
